@@ -185,6 +185,122 @@ def canon_value(key: str, v: Any) -> str:
     return f'??{key}'
 
 
+def make_event(e: list, rn: int) -> Any:
+    from nextline import events as E
+    now = datetime.datetime.utcnow
+    k = e[0]
+    if k == 'st':
+        return E.OnStartTrace(started_at=now(), run_no=rn, trace_no=e[1], thread_no=e[2], task_no=e[3])
+    if k == 'et':
+        return E.OnEndTrace(ended_at=now(), run_no=rn, trace_no=e[1])
+    if k == 'sc':
+        return E.OnStartTraceCall(started_at=now(), run_no=rn, trace_no=e[1], trace_call_no=e[2], file_name=f'file{e[3]}',
+                                  line_no=e[4], frame_object_id=e[5], event=EVENTS[e[6]])
+    if k == 'ec':
+        return E.OnEndTraceCall(ended_at=now(), run_no=rn, trace_no=e[1], trace_call_no=e[2])
+    if k == 'sl':
+        return E.OnStartCmdloop(started_at=now(), run_no=rn, trace_no=e[1], trace_call_no=e[2])
+    if k == 'el':
+        return E.OnEndCmdloop(ended_at=now(), run_no=rn, trace_no=e[1], trace_call_no=e[2])
+    if k == 'sp':
+        return E.OnStartPrompt(started_at=now(), run_no=rn, trace_no=e[1], trace_call_no=e[2], prompt_no=e[3],
+                               prompt_text=f'text{e[4]}', file_name='ignored', line_no=0, frame_object_id=0, event='line')
+    if k == 'ep':
+        return E.OnEndPrompt(ended_at=now(), run_no=rn, trace_no=e[1], trace_call_no=0, prompt_no=e[2], command=f'cmd{e[3]}')
+    if k == 'so':
+        return E.OnWriteStdout(written_at=now(), run_no=rn, trace_no=e[1], text=f'text{e[2]}')
+    raise ValueError(k)
+
+
+def e2e_case(seed: int) -> dict:
+    """End to end through the real run session: a simulated child emits a well-formed stream (possibly cut: traces and prompts
+    still open) faster than a slow plugin lets the relay deliver it, then exits or is killed; when `finished` is published the
+    run state must be closed out, whatever the schedule."""
+    from .. import fakes, lifecycle, loop as ctl
+    rng = random.Random(seed)
+    stream = gen_stream(rng, 3, rng.choice([4, 8, 14, 20]), p_kill=0.6)
+    slow = rng.choice([0, 1, 3])
+    kill = rng.random() < 0.5
+    chooser = ctl.Rand(random.Random(seed * 17 + 3))
+    msgs: list[str] = []
+    info: dict = {'n': len(stream), 'kill': kill, 'slow': slow}
+
+    async def main() -> None:
+        from nextline import Nextline
+        from nextline.plugin.spec import hookimpl
+        from nextline.spawned import RunResult
+        w = fakes.reset_world()
+        w.signal_exits = False
+        nl = Nextline('x = 1\n')
+        seen: list = []
+
+        class Slow:
+            @hookimpl
+            async def on_start_run(self, context: Any, event: Any) -> None:
+                seen.append('startRun')
+
+            @hookimpl
+            async def on_event_in_process(self, context: Any, event: Any) -> None:
+                for _ in range(slow):
+                    await asyncio.sleep(0)
+        nl.register(Slow())
+        await nl.start()
+        notices: list = []
+        ids: list = []
+
+        async def consume(it: Any, out: list) -> None:
+            async for x in it:
+                out.append(x)
+        run_task = asyncio.ensure_future(nl.run())
+        for _ in range(300):
+            if w.children and 'startRun' in seen:
+                break
+            await asyncio.sleep(0)
+        child = w.children[0]
+        t_notice = asyncio.ensure_future(consume(nl.prompts(), notices))
+        t_ids = asyncio.ensure_future(consume(nl.subscribe_trace_ids(), ids))
+        for e in stream:
+            child.emit(make_event(e, 1))
+            for _ in range(rng.choice([0, 0, 0, 1, 2])):
+                await asyncio.sleep(0)
+        if kill:
+            child.exit(None, exitcode=-9)       # everything it had written stays in the channel
+        else:
+            child.exit(RunResult(ret=None), exitcode=0)
+        await asyncio.wait_for(run_task, timeout=60)
+        await lifecycle.settle()
+        started = [e[1] for e in stream if e[0] == 'st']
+        if nl.state != 'finished':
+            msgs.append(f'state after the run: {nl.state}')
+        if tuple(nl.trace_ids) != ():
+            msgs.append(f'the run has ended but the active trace ids are {tuple(nl.trace_ids)} (traces started: {started})')
+        if ids and tuple(ids[-1]) != ():
+            msgs.append(f'the last published set of active trace ids is {tuple(ids[-1])}, not empty')
+        if not t_notice.done():
+            msgs.append('a subscriber of prompts() attached during the run is still waiting after the run ended')
+        opened = [(e[1], e[3]) for e in stream if e[0] == 'sp']
+        got = [(n.trace_no, n.prompt_no) for n in notices]
+        if got != opened:
+            msgs.append(f'prompt notices {got} do not match prompt starts {opened} one to one')
+        await nl.close()
+        for t in (t_notice, t_ids):
+            if not t.done():
+                t.cancel()
+    err = None
+    fakes.install()
+    try:
+        ctl.run(main, chooser)
+    except (Exception, ctl.StepBudgetExceeded) as e:  # noqa
+        err = f'{type(e).__name__}: {e}'
+    if err:
+        msgs.append(f'the run did not complete: {err}')
+    return {'seed': seed, 'stream': stream, 'msgs': msgs, 'info': info, 'schedule': chooser.trace}
+
+
+def _e2e_shard(seeds: list) -> list:
+    return [e2e_case(s) for s in seeds]
+
+
 async def drive(runs: list[tuple[int, list[list]]], rng: random.Random, attach: bool) -> dict:
     """Drive the real hooks of a real Nextline with the given runs. Returns per-key op log, oracle messages."""
     from nextline import Nextline
@@ -458,7 +574,8 @@ def run(chk: common.Check) -> None:
     chk.cov.rule = ('event streams well-formed by construction (≤ 4 interleaved traces, trace calls, command loops, prompts, stdout), '
                     'cut at a random point with probability 0.4 (kill), 1–3 consecutive runs per object; plus every prefix of every '
                     'interleaving (length ≤ 9) of two fixed small traces; executed on the real registrars through the real hook caller '
-                    'and on the Lean model, publications compared per key and per hook call. Non-trivial: at least one trace started. '
+                    'and on the Lean model, publications compared per key and per hook call; plus the same kind of streams end to end through the real run '
+                    'session with a simulated child, a slow plugin and a kill or exit with traces/prompts open, under random schedules. Non-trivial: at least one trace started. '
                     'Distinct = distinct stream.')
     chk.assumptions += ['each built-in hook implementation is atomic w.r.t. the event loop (F2); implementations of one hook call on '
                         'different keys are compared per key, not across keys',
@@ -528,6 +645,19 @@ def run(chk: common.Check) -> None:
     chk.cov.extra['exhaustive_scope'] = 'every prefix (length ≤ 9) of every interleaving of two fixed traces (2 trace calls, ≤ 2 prompts each)'
     if not_wf:
         raise RuntimeError(f'generator produced {not_wf} streams the model considers ill-formed')
+
+    # end to end through the real run session (simulated child, permuting loop): the stream arrives faster than a slow plugin lets the
+    # relay deliver it, the child exits or is killed with traces and prompts open; at `finished` everything must be closed out
+    ne2e = 400 if chk.tier == 'quick' else 6000
+    seeds = [chk.seed * 1000003 + i for i in range(ne2e)]
+    with mp.get_context('fork').Pool(16) as pool:
+        e2e = [r for sh in pool.map(_e2e_shard, [seeds[i::16] for i in range(16)]) for r in sh]
+    for r in e2e:
+        chk.cov.case(('e2e', r['seed']), trivial=not any(e[0] == 'st' for e in r['stream']))
+        chk.cov.count('kinds', 'end-to-end-session')
+        chk.cov.count('e2e_ending', 'kill' if r['info']['kill'] else 'exit')
+        if r['msgs']:
+            oracle_fail.append(({'e2e_seed': r['seed'], 'stream': r['stream'], 'ending': r['info'], 'schedule': r['schedule']}, r['msgs']))
 
     # recorded streams from real runs: what subscribers saw vs the model on the recorded hook stream
     nreal = 4 if chk.tier == 'quick' else 40
